@@ -412,8 +412,10 @@ func resolveUnionBatch(ctx context.Context, sources []interface{}, typ *Union, s
 		gqlType := typ.Types[srcType]
 		// Resolve every member type once, with all the fragments that apply to it:
 		// their selections are merged (and their directives evaluated) by Flatten, and
-		// a member no fragment applies to is still an (empty) object, not null.
-		applicable := &SelectionSet{}
+		// a member no fragment applies to is still an object, not null. The
+		// selections made on the union itself (__typename) hold for every member,
+		// also for one that no fragment applies to.
+		applicable := &SelectionSet{Selections: selectionSet.Selections}
 		for _, fragment := range selectionSet.Fragments {
 			if fragment.On != srcType {
 				continue
